@@ -118,7 +118,7 @@ PROPS = {
     ),
     'C05': dict(
         level='proof',
-        verus_units=['broker_channel'],
+        verus_units=['broker_channel', 'broker_handlers_channel'],
         trusted_base=TB_VERUS + TB_CONN + ['std::mem::replace specification'],
         assumptions=[
             'callers (Broker::{send_item, add_channel_capacity, claim_channel_end, close_channel_end, '
